@@ -693,8 +693,16 @@ func runC09(c *CaseCtx) (res CaseResult) {
 			_ = o2
 		}
 	}
-	// outcome classes of Calls must match the twin
-	if len(classes1) == len(classes2) {
+	// outcome classes of Calls must match the twin — only where the class is a
+	// singleton: with a failing converter in the set, whether a call fails
+	// depends on which of several derivations the resolver picks (map order)
+	anyFail := false
+	for _, cv := range s.Convs {
+		if cv.Fail {
+			anyFail = true
+		}
+	}
+	if len(classes1) == len(classes2) && !anyFail {
 		for i := range classes1 {
 			if classes1[i] != classes2[i] {
 				res.violate("C09", "outcome-differs-from-twin", fmt.Sprintf("operation %d: %s with Redefines interleaved, %s without", i, classes1[i], classes2[i]), det("history", fmt.Sprint(classes1, classes2)))
